@@ -88,3 +88,126 @@ Print Assumptions C12_raw_never_unmapped.
 Print Assumptions C12_no_leak.
 Print Assumptions C12_model_ok.
 Print Assumptions C12_model_live_partial.
+
+(* ------------------------------------------------------------------------------------------------------------
+   Xen flavour (feature `xen`).  Machine: Impl/OwnerXen.v ([yrun m l], same Arc / Vec / snapshot operations as above
+   over the Xen object kinds: 0 MmapXenUnix, 1 MmapXenForeign, 2 MmapXenGrant mapped in advance - each owning an
+   MmapUnix whose Drop is munmap, the grant's Drop additionally issuing the gntdev unmap request - and 3 MmapXenGrant
+   mapped on demand, which owns nothing) PLUS guarded accesses [YAccess] (read / write / ptr_guard through a region, a
+   map or a snapshot) anywhere in the history.  [m] is the build profile; proofs in Proofs/C12xen.v.
+   y_live / y_unmaps: the region's own memory mapping and the munmap calls for it; y_gnt / y_gunmaps: its grant mapping
+   in the device and the unmap requests for it. *)
+From VM Require Import Prelude.Outcome Impl.MmapBuild Impl.Xen Impl.OwnerXen Spec.C12xen Suite.C12xen Proofs.C12xen Proofs.C12xenLink.
+
+Theorem C12x_strong_counts : forall m l r, r < ynreg (yrun m l) ->
+  y_strong (yreg (yrun m l) r) = yowners r (yrun m l) /\ y_ub (yreg (yrun m l) r) = false.
+Proof. exact ystrong_counts_lemma. Qed.
+
+(* unix / foreign / advance-mapped grant regions: mapped exactly while some owner can reach the region *)
+Theorem C12x_live_iff_owner : forall m l r, r < ynreg (yrun m l) -> y_kind (yreg (yrun m l) r) <> 3 ->
+  (y_live (yreg (yrun m l) r) = true <-> yreaches (yrun m l) r).
+Proof. exact ylive_iff_owner_lemma. Qed.
+
+(* an on-demand grant region never owns a mapping or a grant, and nothing is ever unmapped on its behalf by a drop *)
+Theorem C12x_ondemand_owns_nothing : forall m l r, r < ynreg (yrun m l) -> y_kind (yreg (yrun m l) r) = 3 ->
+  y_owned (yreg (yrun m l) r) = false /\ y_live (yreg (yrun m l) r) = false /\ y_unmaps (yreg (yrun m l) r) = O /\
+  y_gnt (yreg (yrun m l) r) = false /\ y_gunmaps (yreg (yrun m l) r) = O.
+Proof. exact yondemand_owns_nothing_lemma. Qed.
+
+(* no live handle reaches a region whose mapping (kinds 0-2) or device grant (kind 2) is gone or was ever unmapped *)
+Theorem C12x_no_dangling : forall m l i h r,
+  nth_error (yhandles (yrun m l)) i = Some (Some h) -> In r (yreach_list (yrun m l) h) ->
+  r < ynreg (yrun m l) /\ (0 < y_strong (yreg (yrun m l) r))%nat /\
+  (y_kind (yreg (yrun m l) r) <> 3 -> y_live (yreg (yrun m l) r) = true /\ y_unmaps (yreg (yrun m l) r) = O) /\
+  (y_kind (yreg (yrun m l) r) = 2 -> y_gnt (yreg (yrun m l) r) = true /\ y_gunmaps (yreg (yrun m l) r) = O).
+Proof. exact yno_dangling_lemma. Qed.
+
+(* munmap and the grant unmap request are each issued at most once per region, and exactly once precisely when no
+   owner is left; regions that are not advance-mapped grants never see a grant request *)
+Theorem C12x_unmapped_once : forall m l r, r < ynreg (yrun m l) ->
+  (y_unmaps (yreg (yrun m l) r) <= 1)%nat /\ (y_gunmaps (yreg (yrun m l) r) <= 1)%nat /\
+  (y_kind (yreg (yrun m l) r) <> 3 ->
+     (y_unmaps (yreg (yrun m l) r) = 1%nat <-> ~ yreaches (yrun m l) r) /\
+     (y_unmaps (yreg (yrun m l) r) = 1%nat <-> y_live (yreg (yrun m l) r) = false)) /\
+  (y_kind (yreg (yrun m l) r) = 2 ->
+     (y_gunmaps (yreg (yrun m l) r) = 1%nat <-> ~ yreaches (yrun m l) r) /\
+     (y_gunmaps (yreg (yrun m l) r) = 1%nat <-> y_gnt (yreg (yrun m l) r) = false)) /\
+  (y_kind (yreg (yrun m l) r) <> 2 -> y_gnt (yreg (yrun m l) r) = false /\ y_gunmaps (yreg (yrun m l) r) = O).
+Proof. exact yunmapped_once_lemma. Qed.
+
+(* no leak: when every handle has been dropped nothing is left mapped and no grant is left in the device *)
+Theorem C12x_no_leak : forall m l, yquiescent (yrun m l) -> forall r, r < ynreg (yrun m l) ->
+  (y_kind (yreg (yrun m l) r) <> 3 -> y_live (yreg (yrun m l) r) = false /\ y_unmaps (yreg (yrun m l) r) = 1%nat) /\
+  y_gnt (yreg (yrun m l) r) = false /\
+  (y_kind (yreg (yrun m l) r) = 2 -> y_gunmaps (yreg (yrun m l) r) = 1%nat).
+Proof. exact yno_leak_lemma. Qed.
+
+(* ACCESSES.  A guarded access through any handle changes no region record, handle or snapshot - in particular it
+   never changes the live set (the guard of an advance-mapped region is MmapXenSlice::raw; the clone of the grant a
+   window carries owns no mapping) ... *)
+Theorem C12x_access_changes_nothing : forall m s h sel off len ak, fst (yexec m (YAccess h sel off len ak) s) = s.
+Proof. exact yaccess_state_lemma. Qed.
+
+(* ... and whatever it asks of the device (event list of Impl/Xen.v's run_op on the region) leaves the device's live
+   set and the mmap balance as they were: an on-demand access maps and unmaps its OWN window only *)
+Theorem C12x_access_released : forall m s h sel off len ak st,
+  live_after st (yevs m (YAccess h sel off len ak) s) = st /\ mm_balance (yevs m (YAccess h sel off len ak) s) = 0%Z.
+Proof. exact yaccess_released_lemma. Qed.
+
+(* an access to a region mapped in advance asks nothing at all of the device *)
+Theorem C12x_access_advance_silent : forall m s r off len ak g,
+  yxregion m (y_kind (yreg s r)) r (y_slot (yreg s r)) = Some g -> on_demand g = false ->
+  fst (yaccess1 m s r off len ak) = [].
+Proof. exact yaccess1_advance. Qed.
+
+(* non-vacuity: an advance-mapped grant region 0 and an on-demand region 1 in one map; accesses through the map;
+   the map keeps both alive after the creating handles are gone; then everything is dropped *)
+Example C12x_nonvacuous :
+  let l1 := [YCreate 2 1; YCreate 3 2; YBuild [0%nat; 1%nat]; YAccess 2 1 100 8 0; YAccess 2 2 2040 8 1;
+             YDropH 0; YDropH 1; YAccess 2 1 16 4 1] in
+  let l2 := l1 ++ [YDropH 2] in
+  y_live (yreg (yrun Debug l1) 0) = true /\ y_gnt (yreg (yrun Debug l1) 0) = true /\ yreaches (yrun Debug l1) 0 /\
+  y_live (yreg (yrun Debug l1) 1) = false /\ y_strong (yreg (yrun Debug l1) 1) = 1%nat /\
+  y_live (yreg (yrun Debug l2) 0) = false /\ y_unmaps (yreg (yrun Debug l2) 0) = 1%nat /\
+  y_gnt (yreg (yrun Debug l2) 0) = false /\ y_gunmaps (yreg (yrun Debug l2) 0) = 1%nat /\
+  y_unmaps (yreg (yrun Debug l2) 1) = O /\
+  (* the access to the advance-mapped region is silent; the one to the on-demand region opens and closes a window *)
+  yevs Debug (YAccess 2 1 100 8 0) (yrun Debug [YCreate 2 1; YCreate 3 2; YBuild [0%nat; 1%nat]]) = [] /\
+  length (yevs Debug (YAccess 2 2 2040 8 1) (yrun Debug [YCreate 2 1; YCreate 3 2; YBuild [0%nat; 1%nat]])) = 4%nat.
+Proof.
+  cbv zeta. repeat split; try (vm_compute; reflexivity).
+  exists 2%nat, (HMap [0; 1]). split; vm_compute; [reflexivity|left; reflexivity].
+Qed.
+
+(* the machine's account of the Xen objects agrees with the transcription of the constructors and Drop impls in
+   Impl/Xen.v (xen_from_range, xen_drop - the model the C15 / C17 packages tie to src/mmap/xen.rs) for EVERY region the
+   machine can create: kind < 4, fewer than 100 regions, slot < 16 (the bounds of [yexec (YCreate ..)] and of the
+   harness), both build profiles - a finite domain of 12800 combinations checked by evaluation ([ytab_ok]: built; takes
+   windows on demand iff kind 3; owns a mapping iff kind <> 3; one map request for its whole range iff kind 2; Drop =
+   one munmap iff kind <> 3, one unmap request with the same index and count iff kind 2) *)
+Theorem C12x_objects_match_Xen : forall m kind id slot, kind < 4 -> id < 100 -> slot < 16 -> ytab_ok m kind id slot = true.
+Proof. exact objects_match_Xen_lemma. Qed.
+
+(* FULL STATEMENT NOT PROVED:  forall m ops, ok_C12x ops (run_C12x m ops) = true  (for well-formed ops).
+   Proved: the live and gnt components of every observation the machine produces are the ones the checker demands,
+   with "reachable" read through the owner count; missing (as for C12_model_ok above): the simulation between the
+   checker's per-handle region lists and the machine's for st / val, and the event discipline of ok_C12x, which are
+   tied to the machine by evaluation on every generated case only. *)
+Theorem C12x_model_live_partial : forall m l,
+  ymask_live (yrun m l) = mask_upto (N.to_nat (ynreg (yrun m l)))
+     (fun r => negb (y_kind (yreg (yrun m l) r) =? 3) && negb (Nat.eqb (yowners r (yrun m l)) 0)) /\
+  ymask_gnt (yrun m l) = mask_upto (N.to_nat (ynreg (yrun m l)))
+     (fun r => (y_kind (yreg (yrun m l) r) =? 2) && negb (Nat.eqb (yowners r (yrun m l)) 0)).
+Proof. exact ymodel_live_lemma. Qed.
+
+Print Assumptions C12x_strong_counts.
+Print Assumptions C12x_live_iff_owner.
+Print Assumptions C12x_ondemand_owns_nothing.
+Print Assumptions C12x_no_dangling.
+Print Assumptions C12x_unmapped_once.
+Print Assumptions C12x_no_leak.
+Print Assumptions C12x_access_changes_nothing.
+Print Assumptions C12x_access_released.
+Print Assumptions C12x_access_advance_silent.
+Print Assumptions C12x_objects_match_Xen.
+Print Assumptions C12x_model_live_partial.
